@@ -23,7 +23,8 @@ CONSTANTS Slates,        \* slate names, e.g. {"s1","s2"}
           MaxAdv,        \* at most this many adversarial calls per behaviour
           MaxFork,       \* reorganisations of depth 1..MaxFork (0 = none)
           UseScan,       \* owner::scan (with and without delete_unconfirmed), restore from seed
-          UseDiverge     \* inject divergences into w1's records
+          UseDiverge,    \* inject divergences into w1's records
+          UseSelf        \* w1 may receive its own slates (self-send), also into its second account
 
 VARIABLES st, hv, net, hist, mids   \* mids: the intermediate persistent states of the last step
 vars == <<st, hv, net, hist, mids>>
@@ -291,6 +292,7 @@ Next ==
   \/ UseAccounts /\ (CreateAccountAct \/ \E a \in {"a0", "a1"} : SetActiveAct(a)
                      \/ \E sl \in Slates, amt \in Amounts : InitSendAct(sl, amt, FALSE, 0, "default"))
   \/ \E sl \in Slates : ReceiveAct("w2", sl) \/ PostAct(sl)
+  \/ UseSelf /\ \E sl \in Slates : ReceiveAct("w1", sl)
   \/ \E sl \in Slates : \E m \in net : FinalizeAct(sl, m) \/ LockAct(sl, m)
   \/ UseInvoice /\ \E sl \in Slates : (\E amt \in Amounts : IssueInvoiceAct(sl, amt)) \/ ProcessInvoiceAct(sl)
                                         \/ \E m \in net : FinalizeInvoiceAct(sl, m)
@@ -319,7 +321,7 @@ View == <<st, hv, net>>
 \* (soft: TLC goes on, the runner collects the CEX lines - with -continue TLC would dump a
 \* full error trace per violation, which is far too slow when a defect is reachable often)
 Cex(name) == PrintT(<<"CEX", ToJson([inv |-> name, hist |-> hist])>>)
-Inv_Exclusive == IF ExclusiveReservation(st, hv) THEN TRUE ELSE Cex("ExclusiveReservation")
+Inv_Exclusive == IF ExclusiveReservation(st, hv) /\ OneLiveEntryPerSlate(st) THEN TRUE ELSE Cex("ExclusiveReservation")
 \* C06: every state a crash can leave behind (after each persistent effect of the last
 \* operation) is consistent
 Inv_Crash == IF \A i \in DOMAIN mids : \A w \in DOMAIN mids[i].w : CrashConsistent(mids[i], w) THEN TRUE ELSE Cex("CrashConsistent")
